@@ -51,6 +51,24 @@ def realpad(limit, pad):
     return 0 if pad == 0 else 65430 - 45 * (limit - 1 - pad)
 
 
+def size_scenarios(tier):
+    """C03: requests that by themselves carry more than a record can hold, and many updates on one session."""
+    acct = [dict(u="1", rg="1", quota=1000000, cost="1")]
+    big = [dict(rg="1", req=-1, conts=[dict(m="off", vol=1)] * 4000)]
+    many = [dict(a="update", u="1", s="s1", usage=[dict(rg="1", req=-1, conts=[dict(m="off", vol=1)] * 120)]) for _ in range(20 if tier == "quick" else 60)]
+    return [
+        dict(id="C03-bigcreate", lrsn0=0, wb=False, ues=["1"], accts=acct,
+             steps=[dict(a="create", u="1", s="s1", c="a", chid=1, pad=66000, usage=[])]),
+        dict(id="C03-bigupdate", lrsn0=0, wb=False, ues=["1"], accts=acct,
+             steps=[dict(a="create", u="1", s="s1", c="a", chid=1, usage=[]), dict(a="update", u="1", s="s1", usage=big),
+                    dict(a="update", u="1", s="s1", usage=[dict(rg="1", req=-1, conts=[dict(m="off", vol=1)])])]),
+        dict(id="C03-bigrelease", lrsn0=0, wb=False, ues=["1"], accts=acct,
+             steps=[dict(a="create", u="1", s="s1", c="a", chid=1, usage=[]), dict(a="release", u="1", s="s1", usage=big, trig=[])]),
+        dict(id="C03-many", lrsn0=0, wb=False, ues=["1"], accts=acct,
+             steps=[dict(a="create", u="1", s="s1", c="a", chid=1, usage=[])] + many + [dict(a="release", u="1", s="s1", usage=[], trig=[])]),
+    ]
+
+
 def tz_scenarios():
     """C02: one create/update/release per host time-zone offset (positive, negative, non-hour-aligned)."""
     out = []
@@ -106,6 +124,8 @@ def cfg(pid, tier):
             n_beh, emit = 5000, 400
         if pid == "C02":
             extra = tz_scenarios()
+        if pid == "C03":
+            extra = size_scenarios(tier)
     elif pid == "C10":
         c.update(Subs=S("1", "11"), Consumers=S("", "1"), Traffic=S(9), Lrsn0=1, MaxSess=3, Modes=S("off"),
                  Reqs=S(), Vols=S(1), TrigSets=S("none"), TopUps=S(), Recharges=False, AcctChoices=S((9, 1)))
